@@ -386,6 +386,8 @@ def maclocal():
 
 
 def render_macloc(case):
+    if 'src' in case:
+        return case['src']
     head, refs, nop, gap = SCOPED_T[case['t']]
     ref = '\t' + refs[case['kind']] % 'over'
     body = [ref, case['gap'], 'over:\t' + nop] if case['dir'] == 'fwd' else ['over:\t' + nop, case['gap'], ref]
@@ -413,7 +415,7 @@ def ev_macloc(case):
             return core.R(False, ck, 'crash/macloc/%s' % ck, '%s on %s' % (ck, d))
         res.append((o.rc, core.get('a.p') if o.rc == 0 else None, tr[-1][3] if tr else None, len(tr)))
     n = res[0][3] + res[1][3]
-    sig = '%s/%s/%s%s' % (case['wrap'], case['kind'], '+'.join(case['opts']) or 'plain', '/hides-outer-label' if case.get('outer') else '')
+    sig = '%s/%s/%s%s' % (case.get('wrap'), case.get('kind'), '+'.join(case['opts']) or 'plain', '/hides-outer-label' if case.get('outer') else '')
     if res[0][0] == 97:
         return core.R(False, 'no-fixpoint', 'termination/macloc/' + sig, 'no convergence within %d passes on %s' % (MAXP, d), transitions=n)
     if res[0][0] != res[1][0]:
@@ -520,6 +522,16 @@ def subspaces(tier):
     subs.append(('skeleton-label-and-reference-spellings', forms()))
     subs.append(('sections-and-forward-declarations', scoped()))
     subs.append(('labels-local-to-macro-and-repetition-bodies', maclocal()))
+    # symbols with floating-point values of every class (finite, infinite, not-a-number, signed zero) in a source that needs a
+    # second pass: a value that does not change does not ask for a further pass
+    fl = []
+    for name, expr in (('finite', '1.5'), ('inf', '1.0e308*10.0'), ('neginf', '0.0-1.0e308*10.0'), ('nan', '(1.0e308*10.0)-(1.0e308*10.0)'), ('negzero', '0.0*(0.0-1.0)'),
+                       ('tiny', '4.9e-324'), ('sqrt', 'sqrt(2.0)')):
+        for fwd in (0, 1):
+            for kw in ('equ', 'set'):
+                fl.append({'k': 'macloc', 'wrap': 'float-symbol', 'kind': name, 'opts': [],
+                           'src': '\tcpu 6502\n\torg $200\nx\t%s %s\ny\t%s x\n%sfwd:\trts\n' % (kw, expr, kw, '\tjmp fwd\n' if fwd else '\tnop\n')})
+    subs.append(('float-symbols-in-multipass-sources', fl))
     subs.append(('golden-corpus-extra-pass', [{'k': 'corpus', 't': t} for t in corpus.tests()]))
     return subs
 
